@@ -64,7 +64,12 @@ TDecouple ==
                  (IF chain /\ fin THEN << I("Decouple1L", Shrinks(ev.a1L, prev.a1L, prev.S_1, prev.k)),
                                          I("DecoupleF", Shrinks(ev.a2LF, prev.a2LF, prev.S_F, prev.k)),
                                          I("DecoupleB", Shrinks(ev.a2LB, prev.a2LB, prev.S_B, prev.k)) >> ELSE << >>)
-     IN /\ viol' = viol \o Failed(invs, l, ev.sig \o "/k" \o ToString(IF chain THEN prev.k ELSE 0))
+         \* decade of |a2LB| at this member: e<n> with 10^-n <= |a2LB| < 10^-(n-1) (identifies the known finding K12,
+         \* rounding noise of 1e-15 .. 1e-13 at 10 .. 31.6 TeV, against any larger failure to decouple)
+         mag == IF ok /\ IsFin(ev.a2LB) /\ \E n \in 5..25 : Le(One, Mul(TenPow(n), Abs(ev.a2LB)))
+                THEN CHOOSE n \in 5..25 : Le(One, Mul(TenPow(n), Abs(ev.a2LB))) /\ (n = 5 \/ ~Le(One, Mul(TenPow(n - 1), Abs(ev.a2LB))))
+                ELSE 99
+     IN /\ viol' = viol \o Failed(invs, l, ev.sig \o "/k" \o ToString(IF chain THEN prev.k ELSE 0) \o "/e" \o ToString(mag))
         /\ nchecked' = nchecked + Len(invs)
         /\ prev' = IF ok THEN ev ELSE None
   /\ UNCHANGED ref /\ l' = l + 1
